@@ -16,6 +16,9 @@ import Golib.Proof.C11Inv
 import Golib.Proof.C11Lin
 import Golib.Proof.C11Hist
 import Golib.Proof.C11Prog
+import Golib.Proof.C11Classic
+import Golib.Proof.C11Init
+import Golib.Proof.C11Plain
 
 namespace Golib.C11
 
@@ -119,17 +122,49 @@ theorem c11_false_justified (vals : List Int) (progs : List (List Call)) (σ : L
   rw [lrun_fst] at hG
   exact ⟨fun h hpc he => ((false_pop_facts hG hth).1 h hpc he).2, (false_pop_facts hG hth).2⟩
 
-/-- `c11_race_free`: in no reachable state are two different threads both about to make a
-plain (non-atomic) access to the `value` of the same node. -/
+/-- `c11_race_free`, at the granularity of the code's plain accesses.  After its successful
+head CAS `Pop` performs TWO plain accesses to the node that became the head, and the model has
+them as two separate steps with their own program counters: `popRead n` (`value := node.value`)
+and `popClear n v` (`node.value = zero`), so every interleaving between and around them is a
+run of the model.  In every reachable state:
+ 1. no two different threads are both at a plain access (read or write, any combination) of
+    the same node — in particular while a popper is BETWEEN its read and its write
+    (`popClear n _`) no other thread is at `popRead n` or `popClear n _`;
+ 2. a node at which a thread has a plain access pending is linked (`n < |chain|`: the
+    creating goroutine's initialising write happened before the link CAS that published it)
+    and has already been removed from the queue (`n ≤ head`): no `Push` touches it, and a later
+    head CAS moves `head` to `head + 1 > n`, so no later `Pop` gets it either.
+(The Go harness cannot park a goroutine at a plain access, so the tie does not interleave
+there; this theorem and the race-detector run cover it.) -/
 theorem c11_race_free (vals : List Int) (progs : List (List Call)) (σ : List Nat)
     (i j : Nat) (a b : Thread) (n : Nat) :
     let s := (run .addThenStore (init vals progs) σ).1
-    i ≠ j → s.threads[i]? = some a → s.threads[j]? = some b →
-      ¬ (plainNode a.pc = some n ∧ plainNode b.pc = some n) := by
-  intro s hij hi hj ⟨ha, hb⟩
-  have hG := ginv_lrun (ginv_init vals progs) σ
-  rw [lrun_fst] at hG
-  exact no_conflict hG hij hi hj ha hb
+    (i ≠ j → s.threads[i]? = some a → s.threads[j]? = some b →
+      ¬ (plainNode a.pc = some n ∧ plainNode b.pc = some n)) ∧
+    (s.threads[i]? = some a → plainNode a.pc = some n → n ≤ s.head ∧ n < s.chain.length) := by
+  intro s
+  have hG0 := ginv_lrun (ginv_init vals progs) σ
+  rw [lrun_fst] at hG0
+  have hG : GInv s (lrun (init vals progs) (ginit vals progs) σ).2 := hG0
+  refine ⟨fun hij hi hj ⟨ha, hb⟩ => no_conflict hG hij hi hj ha hb, fun hi ha => ?_⟩
+  have hloc := hG.inv.locals a (List.mem_of_getElem? hi)
+  have h1 := hG.inv.chain_len
+  have h2 := hG.inv.head_le_tail
+  cases hpc : a.pc <;> rw [hpc] at ha hloc <;> simp only [plainNode, reduceCtorEq, Option.some.injEq] at ha <;>
+    simp only [PcOk] at hloc <;> omega
+
+/-- `c11_race_free_run`: over a whole run, ALL plain accesses (`rdVal n`, `wrVal n` events:
+`value := node.value`, `node.value = zero`) to the value of one node are made by ONE thread —
+the popper whose head CAS made that node the head.  So after a node is published no two
+threads ever access its `value` plainly, at any distance in time (nothing relies on an
+ordering between a clear and a later read by someone else); the creating goroutine's
+initialising write precedes the publication (link CAS).  With `c11_race_free` this is
+data-race freedom at the granularity of the code's plain accesses. -/
+theorem c11_race_free_run (vals : List Int) (progs : List (List Call)) (σ : List Nat)
+    (e1 e2 : Event) (n : Nat) :
+    e1 ∈ (run .addThenStore (init vals progs) σ).2 → e2 ∈ (run .addThenStore (init vals progs) σ).2 →
+    e1.acc.touches = some n → e2.acc.touches = some n → e1.tid = e2.tid :=
+  plain_exclusive vals progs σ e1 e2 n
 
 /-- `c11_lin_fifo`: the EMITTED sequence of linearization events `L` (read off the
 implementation state only: `push i v` at the tail publication of `Push(v)`, `pop i x` at a
@@ -201,6 +236,73 @@ theorem c11_popwait_timed (vals : List Int) (progs : List (List Call)) (σ : Lis
   refine ⟨st'.2.vals, th', h1, by simpa [Phase.vals] using hc, ?_, fun h => by rw [h4 h]; rfl, hs⟩
   cases st'.2 <;> simp [Phase.vals]
 
+/-- `c11_len_abstract`: the `Len()` clause against the ABSTRACT queue at every step.  After
+every schedule `σ` (so: after every single step of every run, including every step taken while
+a `PopWait(d>0)` is waiting for or handling a tick) the abstract FIFO queue `q` obtained by
+replaying the linearization events emitted so far satisfies `|q| ≤ len` and `0 ≤ len`, `q` is
+exactly what a sequence of `Pop`s would return now, and a `Len()` call returning at the next
+step returns `n ≥ |q|`. -/
+theorem c11_len_abstract (vals : List Int) (progs : List (List Call)) (σ : List Nat) :
+    let s := (run .addThenStore (init vals progs) σ).1
+    ∃ q, replay vals (lins (init vals progs) σ) = some q ∧ q = stored s ∧
+      0 ≤ s.len ∧ (q.length : Int) ≤ s.len ∧
+      ∀ i n, (step .addThenStore s i).2.ret = some (.len n) → (q.length : Int) ≤ n := by
+  intro s
+  have hI : Inv s := inv_run (inv_init vals progs) σ
+  have hl := stored_length hI
+  have h1 := hI.len_eq
+  have h2 := hI.head_le_tail
+  refine ⟨stored s, replay_lins vals progs σ, rfl, by omega, by omega, fun i n hr => ?_⟩
+  have := (ret_len (g := ginit vals progs) hr).1
+  omega
+
+/-- `c11_linearizable_classical`: linearizability as it is usually defined.  For every finite
+run let `H = chist (trace …)` be its history (linearization markers and responses; invocation
+of a call = the thread's previous response, its marker is one of the thread's OWN steps inside
+the call) and `S = linearization …` the operations in the order of their markers — a total
+order containing every completed operation and the pending `Pop`s that are past their CAS.
+ 1. `S` is the marker sequence of `H`;
+ 2. `S` is a legal history of the sequential FIFO specification (`SOp.apply`) WITH the
+    observed results, from the initial content to the stored content: `push v` appends, a
+    `Pop`/`PopWait` returning `(x, true)` removes the OLDEST element and it is `x`, a false
+    return leaves the queue unchanged (the property allows false when overlapped; each one is
+    justified by `c11_false_justified`), `Len` returning `n` sees `|q| ≤ n`;
+ 3. at EVERY prefix `T₁` of the trace and for every thread `j`: each operation of `j`
+    completed so far has EXACTLY ONE marker, carrying the result it returned, placed after
+    `j`'s previous response and not after its own response.
+ Real-time precedence: if `A` responds before `B` is invoked then, by 3,
+ mark(A) ≤ resp(A) < inv(B) ≤ mark(B), so `A` precedes `B` in `S`. -/
+theorem c11_linearizable_classical (vals : List Int) (progs : List (List Call)) (σ : List Nat) :
+    let T := trace (init vals progs) σ
+    let S := linearization (init vals progs) σ
+    (chist T).filterMap CEv.mark? = S ∧
+    seqReplay vals S = some (stored (run .addThenStore (init vals progs) σ).1) ∧
+    ∀ (j : Nat) (pr : List Call), progs[j]? = some pr → ∀ T₁ T₂, T = T₁ ++ T₂ →
+      ∀ sg ∈ csegs j [] (chist T₁), CSegOk j sg := by
+  intro T S
+  refine ⟨chist_marks T, seqReplay_linearization vals progs σ, ?_⟩
+  intro j pr hj T₁ T₂ hT
+  obtain ⟨st', _, _, h2, _⟩ := accepts_trace vals progs σ j pr hj
+  have h2' : accepts j (pr, .idle) (T₁ ++ T₂) = some st' := by rw [← hT]; exact h2
+  obtain ⟨st1, h3⟩ := accepts_prefix h2'
+  exact csegs_ok h3 rfl
+
+/-- `c11_initial_content`: the initial content of the quantifier is reachable — `init vals
+(pr0 :: rest)` IS the state the machine reaches from the EMPTY list when thread 0 first
+pushes `vals` sequentially (five steps per `Push`, nobody else running) and then continues
+with `pr0`.  Hence every theorem above, stated for `init vals progs`, is a statement about
+runs from the empty list whose prefix is that sequential fill. -/
+theorem c11_initial_content (vals : List Int) (pr0 : List Call) (rest : List (List Call))
+    (σ : List Nat) :
+    (run .addThenStore (init [] ((vals.map Call.push ++ pr0) :: rest))
+        (List.replicate (5 * vals.length) 0)).1 = init vals (pr0 :: rest) ∧
+    (run .addThenStore (init [] ((vals.map Call.push ++ pr0) :: rest))
+        (List.replicate (5 * vals.length) 0 ++ σ)).1 = (run .addThenStore (init vals (pr0 :: rest)) σ).1 := by
+  have h : (run .addThenStore (init [] ((vals.map Call.push ++ pr0) :: rest))
+      (List.replicate (5 * vals.length) 0)).1 = init vals (pr0 :: rest) := by
+    rw [seqState_init, seqState_run]; simp [seqState_done]
+  exact ⟨h, by rw [run_append_fst, h]⟩
+
 /-- `c11_push_completes_solo`: in every reachable state in which all other threads are
 idle, a `Push` at its loop head returns after exactly five of its own steps. -/
 theorem c11_push_completes_solo (vals : List Int) (progs : List (List Call)) (σ : List Nat)
@@ -252,6 +354,32 @@ theorem c11_push_completes_rounds (vals : List Int) (progs : List (List Call)) (
       unlinked s < rs.length → Returned i (run .addThenStore s (flatRounds rs)).2 := by
   intro s hth hin hf hl
   exact push_rounds (inv_run (inv_init vals progs) σ) hth hin rs hf hl
+
+/-- `c11_push_completes_rounds_tight`: the tight bound.  Only the pending pushes of the OTHER
+threads cost a round: `unlinked s - pend th` = number of `Push` calls of threads other than
+`i` that have not linked their node (thread `i`'s own current and future pushes are not
+counted).  More fair rounds than that make thread `i`'s `Push` return.  Tightness: the
+example below shows a state with one pending push of another thread in which one fair round
+is not enough (two are, by this theorem). -/
+theorem c11_push_completes_rounds_tight (vals : List Int) (progs : List (List Call)) (σ : List Nat)
+    (i : Nat) (th : Thread) (rs : List (List Nat × List Nat)) :
+    let s := (run .addThenStore (init vals progs) σ).1
+    s.threads[i]? = some th → inPush th.pc = true → (∀ r ∈ rs, FairRound i r) →
+      unlinked s - pend th < rs.length → Returned i (run .addThenStore s (flatRounds rs)).2 := by
+  intro s hth hin hf hl
+  exact push_rounds_tight (inv_run (inv_init vals progs) σ) hth hin rs hf hl
+
+/-- Tightness witness: thread 0 (two pushes, so `unlinked = 3` but only ONE push of another
+thread is pending) and thread 1 (one push).  The round `([1,1], [1, 0×7])` is fair for thread 0
+(thread 1 takes two steps, then thread 0 takes seven) and thread 0 has not returned after
+it: thread 1 linked first and was not scheduled again.  So `rounds > 0` does not suffice
+when one other push is pending; `rounds > 1` does. -/
+example :
+    let s := init [] [[.push 5, .push 6], [.push 7]]
+    unlinked s = 3 ∧ unlinked s - pend (mkThread [.push 5, .push 6]) = 1 ∧
+    ((run .addThenStore s ([1, 1] ++ [1, 0, 0, 0, 0, 0, 0, 0])).2.filter
+      (fun e => e.tid = 0 ∧ e.ret.isSome)) = [] := by
+  decide
 
 /-- `c11_push_completes_quiet`: "Push completes once the other in-flight pushes are allowed
 to finish".  If no other thread has a `Push` that still has to link (they may be publishing,
@@ -318,6 +446,32 @@ example :
     segs 0 [] (trace (init [] [[.popWaitT 1, .pop], [.push 7, .push 8]]) σ) =
       [([], .pop 0 false), ([.pop 0 7], .pop 7 true)] ∧
     stored (run .addThenStore (init [] [[.popWaitT 1, .pop], [.push 7, .push 8]]) σ).1 = [8] := by
+  decide
+
+/-- Non-vacuity of `c11_race_free_run`: two pops by different threads; each node's value is
+read and cleared by the thread that moved the head onto it. -/
+example :
+    ((run .addThenStore (init [4, 5] [[.pop], [.pop]]) [0, 0, 0, 0, 1, 1, 1, 1, 0, 1, 0, 1, 0, 1]).2.filterMap
+      fun e => e.acc.touches.map fun n => (e.tid, n)) = [(0, 1), (1, 2), (0, 1), (1, 2)] := by
+  decide
+
+/-- Non-vacuity of `c11_len_abstract` inside a timed `PopWait`: thread 0 is waiting for its
+tick (`popTick`) while thread 1 has linked and counted, but not published, its node:
+abstract queue empty, `len = 1`. -/
+example :
+    let s := (run .addThenStore (init [] [[.popWaitT 2], [.push 7]]) [0, 0, 1, 1, 1, 1]).1
+    s.threads.map (·.pc) = [.popTick, .pushStore 7 1] ∧ stored s = [] ∧ s.len = 1 ∧
+    lins (init [] [[.popWaitT 2], [.push 7]]) [0, 0, 1, 1, 1, 1] = [] := by
+  decide
+
+/-- Non-vacuity of `c11_linearizable_classical`: the history and the total order of a run
+with a push, a false `Pop`, a `Len` and a successful `Pop`. -/
+example :
+    let σ := [1, 1, 0, 0, 0, 0, 2, 0, 1, 1, 1, 1, 1, 1, 1]
+    linearization (init [] [[.push 7], [.pop, .pop], [.len]]) σ =
+      [(1, .pop none), (2, .len 1), (0, .push 7), (1, .pop (some 7))] ∧
+    csegs 1 [] (chist (trace (init [] [[.push 7], [.pop, .pop], [.len]]) σ)) =
+      [([(1, .pop none)], .pop 0 false), ([(1, .pop (some 7))], .pop 7 true)] := by
   decide
 
 /-- Non-vacuity of the linearizability clauses: a reachable instrumented state with a
